@@ -13,7 +13,7 @@ JR_RA, NOP = 0x03e00008, 0
 
 # ------------------------------------------------------------------ ELF32 relocatable writer (from the ELF specification)
 
-def elf_object(funcs, externs=(), big=False, order=("text", "rel", "symtab", "strtab", "shstrtab"), locals_first=True, pad_text=0, secrel=False):
+def elf_object(funcs, externs=(), big=False, order=("text", "rel", "symtab", "strtab", "shstrtab"), locals_first=True, pad_text=0, secrel=False, extra_text=False):
     """funcs: [(name, [words | ('jal', symbol)])] laid out consecutively in .text (after pad_text bytes of unrelated code).
     -> bytes of an ET_REL object with .text, .rel.text, .symtab, .strtab, .shstrtab"""
     E = ">" if big else "<"
@@ -65,11 +65,15 @@ def elf_object(funcs, externs=(), big=False, order=("text", "rel", "symtab", "st
         rel = b"".join(struct.pack(E + "II", off, (index[s] << 8) | 4) for off, s in relocs)        # R_MIPS_26
     shstr = bytearray(b"\x00")
     shn = {}
-    for n in (".text", ".rel.text", ".symtab", ".strtab", ".shstrtab"):
+    for n in (".text", ".rel.text", ".symtab", ".strtab", ".shstrtab", ".text.unlikely"):
         shn[n] = len(shstr)
         shstr.extend(n.encode() + b"\x00")
-    bodies = {"text": bytes(text), "rel": rel, "symtab": symtab, "strtab": bytes(strtab), "shstrtab": bytes(shstr)}
-    secnames = {"text": ".text", "rel": ".rel.text", "symtab": ".symtab", "strtab": ".strtab", "shstrtab": ".shstrtab"}
+    bodies = {"text": bytes(text), "rel": rel, "symtab": symtab, "strtab": bytes(strtab), "shstrtab": bytes(shstr),
+              "textu": struct.pack(E + "I", 0x11111111) * 24}
+    secnames = {"text": ".text", "rel": ".rel.text", "symtab": ".symtab", "strtab": ".strtab", "shstrtab": ".shstrtab", "textu": ".text.unlikely"}
+    if extra_text:
+        # a second code section as compilers emit it (.text.unlikely / .text.startup); nothing refers to it
+        order = tuple(order) + ("textu",)
     data = bytearray(b"\x00" * 52)
     offs = {}
     for k in order:
@@ -83,12 +87,13 @@ def elf_object(funcs, externs=(), big=False, order=("text", "rel", "symtab", "st
     secidx = {k: i + 1 for i, k in enumerate(order)}
     sh = [struct.pack(E + "10I", 0, 0, 0, 0, 0, 0, 0, 0, 0, 0)]
     for k in order:
-        typ = {"text": 1, "rel": 9, "symtab": 2, "strtab": 3, "shstrtab": 3}[k]
-        flags = 6 if k == "text" else 0
+        typ = {"text": 1, "rel": 9, "symtab": 2, "strtab": 3, "shstrtab": 3, "textu": 1}[k]
+        flags = 6 if k in ("text", "textu") else 0
         link = {"rel": secidx["symtab"], "symtab": secidx["strtab"]}.get(k, 0)
         info = {"rel": secidx["text"], "symtab": 2 if locals_first else 1}.get(k, 0)
         ent = {"rel": 8, "symtab": 16}.get(k, 0)
-        sh.append(struct.pack(E + "10I", shn[secnames[k]], typ, flags, 0, offs[k], len(bodies[k]), link, info, 4, ent))
+        addr = 0x1000 if k == "textu" else 0          # (the harness's own ELF reader wants distinct load addresses)
+        sh.append(struct.pack(E + "10I", shn[secnames[k]], typ, flags, addr, offs[k], len(bodies[k]), link, info, 4, ent))
     data += b"".join(sh)
     ident = b"\x7fELF" + bytes([1, 2 if big else 1, 1, 0]) + b"\x00" * 8
     hdr = ident + struct.pack(E + "HHIIIIIHHHHHH", 1, 8, 1, 0, 0, shoff, 0, 52, 0, 0, 40, len(order) + 1, secidx["shstrtab"])
@@ -171,8 +176,8 @@ def link_model(prog_refs, funcs, externs, BASE=0x1000):
     return ("ok", words, placed)
 
 
-def program(cpu, refs, local_labels, BASE=0x1000):
-    lines = [".%s" % cpu, ".org 0x%x" % BASE, "main:"]
+def program(cpu, refs, local_labels, BASE=0x1000, setname=None):
+    lines = [".%s" % cpu] + ([".set %s=3" % setname] if setname else []) + [".org 0x%x" % BASE, "main:"]
     for i, r in enumerate(refs):
         if local_labels and i == 1:
             lines.append("mid:")
@@ -208,33 +213,48 @@ def cases(quick):
 
 
 def judge(cpu, g, refs, container, big, variant):
-    BASE = 0x80001000 if variant >= 6 else 0x1000          # above 2^28 the 26-bit jal field no longer holds the whole address
+    BASE = 0x80001000 if variant in (6, 7) else 0x1000     # above 2^28 the 26-bit jal field no longer holds the whole address
+    extra_text = variant in (8, 9)
+    setname = None
+    if variant == 10:
+        # the program defines, with .set, a name that is also a function of the library but never calls it: it must not be linked
+        reach, todo = set(), list(refs)
+        while todo:
+            f = todo.pop()
+            if f not in reach:
+                reach.add(f)
+                todo += g[f]
+        free = [f for f in g if f not in reach]
+        if not free:
+            return None
+        setname = free[0]
     funcs = {f: fbody(i, g[f]) for i, f in enumerate(g)}
     order = ("text", "rel", "symtab", "strtab", "shstrtab") if variant % 2 == 0 else ("strtab", "symtab", "text", "shstrtab", "rel")
     files = {}
     argv = []
     if container == "o":
-        files["lib.o"] = elf_object(list(funcs.items()), big=big, order=order, pad_text=8 if variant in (2, 3) else 0, secrel=variant >= 4)
+        files["lib.o"] = elf_object(list(funcs.items()), big=big, order=order, pad_text=8 if variant in (2, 3) else 0, secrel=variant in (4, 5, 6, 7),
+                                    extra_text=extra_text)
         argv = ["lib.o"]
     elif container == "2o":
         items = list(funcs.items())
         a, b = items[:1], items[1:]
         ext_a = sorted({w[1] for _, body in a for w in body if isinstance(w, tuple)} - {n for n, _ in a})
         ext_b = sorted({w[1] for _, body in b for w in body if isinstance(w, tuple)} - {n for n, _ in b})
-        files["a.o"] = elf_object(a, externs=ext_a, big=big, order=order)
+        files["a.o"] = elf_object(a, externs=ext_a, big=big, order=order, extra_text=extra_text)
         argv = ["a.o"]
         if b:
-            files["b.o"] = elf_object(b, externs=ext_b, big=big, order=order)
+            files["b.o"] = elf_object(b, externs=ext_b, big=big, order=order, extra_text=extra_text)
             argv.append("b.o")
     else:
         items = list(funcs.items())
         members = []
         for i, (n, body) in enumerate(items):
             ext = sorted({w[1] for w in body if isinstance(w, tuple)} - {n})
-            members.append(("m%d.o" % i, elf_object([(n, body)], externs=ext, big=big, order=order)))
+            members.append(("m%d.o" % i, elf_object([(n, body)], externs=ext, big=big, order=order, extra_text=extra_text)))
         files["lib.a"] = ar_archive(members, symindex=(container == "a"))
         argv = ["lib.a"]
-    src = program(cpu, refs, variant % 2 == 1, BASE)
+    src = program(cpu, refs, variant % 2 == 1, BASE, setname)
     exp = link_model(refs, funcs, [], BASE)
     r = asm.assemble(src, "hex", args=("-dump_symbols",), files=files, extra_argv=argv)
     if r.kind != "ok":
@@ -276,7 +296,7 @@ def run(ctx):
     for cpu, big in (("mips32", False), ("pic32", False), ("ps2_ee", False), ("mips", True)):
         for ci, (g, refs) in enumerate(cases(q)):
             for container in (("o", "a") if q else ("o", "2o", "a", "a-noindex")):
-                for variant in ((ci % 8,) if q else (0, 1, 2, 3, 4, 5, 6, 7)):
+                for variant in ((ci % 11,) if q else (0, 1, 2, 3, 4, 5, 6, 7, 8, 9, 10)):
                     if q and cpu in ("pic32", "ps2_ee") and ci % 3:
                         continue
                     jobs.append((cpu, g, refs, container, big, variant))
